@@ -138,10 +138,26 @@ template <> struct Codec<Opm::time_point> {
         std::time_t t = Opm::TimeService::to_time_t(v); return podHex(t);
     }
 };
-// bitset<N> travels as unsigned long long (instantiated in MemPacker.cpp for 3, 4, 10)
+// bitset<N> travels as unsigned long long.  MemPacker.cpp instantiates the packer for the sizes the
+// serialised classes use (3, 4, 10 and FIPConfig's NUM_FIP_REPORT = 17); harness/serial_bitsets.cpp
+// compiles the same template bodies for 1, 8, 16, 32, 33 and 64 so that every width of the wire
+// integer is exercised.  Generator: half of the values are directed (none, all, only the highest
+// bit, only the lowest, one random bit, all but one) so that no width of a narrowed representation
+// survives a handful of draws; the rest are uniform bit patterns.
 template <std::size_t N> struct Codec<std::bitset<N>> {
     static std::string ty() { return "p8"; }
-    static std::bitset<N> gen(vh::Rng& r, const GenCfg&) { return std::bitset<N>(r.next()); }
+    static std::bitset<N> gen(vh::Rng& r, const GenCfg&) {
+        std::bitset<N> b;
+        switch (r.below(12)) {
+        case 0: return b;
+        case 1: return b.set();
+        case 2: return b.set(N - 1);
+        case 3: return b.set(0);
+        case 4: return b.set(r.below(N));
+        case 5: return b.set().reset(r.below(N));
+        default: return std::bitset<N>(r.next());
+        }
+    }
     static std::string show(const std::bitset<N>& v, bool) { unsigned long long u = v.to_ullong(); return podHex(u); }
 };
 
